@@ -510,9 +510,18 @@ def update_lock(jobs):
 def do_replay(path):
     with open(path) as f:
         body = json.load(f)
-    c = load_contracts()[body["ci"]]
-    assert c.name == body["contract"], "contract registry changed"
-    cfg = list(c.configs())[body["gi"]]
+    # contracts are looked up by name and configuration key (the registry may have grown since
+    # the replay file was written)
+    cands = [k for k in load_contracts() if k.name == body["contract"]]
+    if not cands:
+        print("replay: no contract named %r is registered any more" % body["contract"])
+        return 3
+    c = cands[0]
+    cfgs = [g for g in c.configs() if run.cfg_key(g) == body["cfg"]]
+    if not cfgs:
+        print("replay: contract %r has no configuration %r any more" % (c.name, body["cfg"]))
+        return 3
+    cfg = cfgs[0]
     rp = body["replay"]
     if "case" in rp:
         harness.activate_native()
